@@ -163,6 +163,11 @@ class Scipy(AbstractIntegrator):
         y1 = copy.deepcopy(self.y0)
         for _ in range(max_steps):
             y2 = integ.integrate(t)
+            if not integ.successful():
+                # The solver gave up before reaching t (e.g. a finite-time
+                # blow-up): from then on it hands back the same frozen state,
+                # which must not be mistaken for a steady state
+                return Result(IntegrationFailure())
             diff = (y2 - y1) / y1 if rel_norm else y2 - y1
             if np.linalg.norm(diff, ord=2) < tolerance:
                 self.t0 = t
